@@ -500,8 +500,8 @@ static std::vector<Factory> prefix_factories(vh::Rng& rng, bool big) {
 // ---------------------------------------------------------------- running
 static int g_next_id = 0;
 
-static void emit_new(Json& js, int id, const Unit& u, const char* mode) {
-    js.begin("New").num("id", id).str("proc", u.proc).str("mode", mode);
+static void emit_new(Json& js, int id, const Unit& u, const char* mode, long phi_hint = -1) {
+    js.begin("New").num("id", id).str("proc", u.proc).str("mode", mode).num("phi_hint", phi_hint);
     u.params(js);
     js.end();
 }
@@ -1091,14 +1091,43 @@ static void run_multi8(Json& js, vh::Rng& rng, int lmmax, bool audio, int shard,
                 // impulse at a position modulo L*M (identifies the (tap, sample) pair of each output)
                 const size_t ngran = (size_t)std::max<long>(3, (nh / std::max(1, M * L) + 2) * (huge ? 1 : L)) ;
                 const size_t n = std::min<size_t>(ngran * M, huge ? (size_t)2 * M : 400 / M * M + M);
-                for (int imp = 0; imp < (huge ? 1 : 2); ++imp) {
+                for (int imp = (huge ? 1 : 0); imp < 2; ++imp) {   // audio ratios: random data only (a short response can fall between the kept samples)
                     Unit u = fac();
                     const int id = ++g_next_id;
-                    emit_new(js, id, u, "exact");
                     Sig x = int_stream(rng, n, false, imp ? 2 : 0);
                     if (!imp) {
-                        x.re[rng.range(0, std::min<size_t>(n - 1, (size_t)L * M))] = 1;
+                        // audio ratios: early enough for the response to show in the recorded outputs
+                        x.re[rng.range(0, huge ? std::max(0, M - 3) : (long)std::min<size_t>(n - 1, (size_t)L * M))] = 1;
                     }
+                    // audio ratios have tens of thousands of candidate phases: the driver proposes the phase (found by brute force
+                    // on a twin instance fed the whole stream in one call); TLC does not search, it verifies the proposal against the
+                    // textbook chain on every recorded output.  -2: no phase in range reproduces the outputs.
+                    long hint = -1;
+                    if (huge) {
+                        Unit twin = fac();
+                        const Chans out = twin.run(Chans{x});
+                        const int g2 = std::gcd(L * mul, M * mul);
+                        const long Lr = L * mul / g2, Mr = M * mul / g2;
+                        hint = -2;
+                        const std::vector<double>& yv = out[0].re;
+                        for (long phi = 0; phi <= (long)nh + 2 * Lr * Mr && hint < 0; ++phi) {
+                            bool ok = true;
+                            for (size_t j = 0; j < yv.size() && ok; ++j) {
+                                long acc = 0;
+                                for (int t = 0; t < nh; ++t) {
+                                    const long q = (long)j * Mr + phi - t;   // index into the zero-stuffed stream
+                                    if (q >= 0 && q % Lr == 0 && (size_t)(q / Lr) < x.re.size()) {
+                                        acc += h[t] * (long)x.re[q / Lr];
+                                    }
+                                }
+                                ok = (double)(Lr * acc) == yv[j] * u.scale;
+                            }
+                            if (ok) {
+                                hint = phi;
+                            }
+                        }
+                    }
+                    emit_new(js, id, u, "exact", hint);
                     // two frames (first one granule) to cross a call boundary
                     process_exact(js, id, u, x.sub(0, M), 0);
                     if (n > (size_t)M) {
